@@ -1,7 +1,7 @@
 SPECIFICATION Spec
 CONSTANTS
   NClasses = 2
-  MaxFields = 2
+  MaxFields = 1
   Kinds = {"opt"}
   Direct = TRUE
   Named = TRUE
